@@ -341,7 +341,11 @@ class CallMixin:
             return ref
         if ci.is_dataclass:
             fields = self.repo.all_fields(ci)
-            names = [f[0] for f in fields]
+
+            def init_false(default):
+                return isinstance(default, ast.Call) and ast.unparse(default.func) in ("field", "dataclasses.field") and \
+                    any(kw.arg == "init" and isinstance(kw.value, ast.Constant) and kw.value.value is False for kw in default.keywords)
+            names = [f[0] for f in fields if not init_false(f[2])]       # field(init=False) is not a constructor parameter
             if len(args) > len(names):
                 raise E.PyExc(VExc("TypeError"), "too many arguments")
             vals = dict(zip(names, args))
@@ -354,6 +358,8 @@ class CallMixin:
                 if n in vals:
                     rec.fields[n] = vals[n]
                 elif default is not None:
+                    if init_false(default) and not any(kw.arg in ("default", "default_factory") for kw in default.keywords):
+                        continue         # set by __post_init__ (reading it before that is an AttributeError in Python too)
                     rec.fields[n] = self.dc_default(default, dframe)
                 else:
                     raise E.PyExc(VExc("TypeError"), f"missing field {n}")
